@@ -112,3 +112,16 @@ pub proof fn lemma_jobs_in_kext(t: Seq<Event>, from: int, smap: Seq<Extent>, ext
         lemma_mirror_cover(exts, k, b);
     }
 }
+
+/// every job queued at or after trace position `from` is followed by a wait for the pool
+pub open spec fn joined_after_jobs(t: Seq<Event>, from: int) -> bool {
+    forall|k: int| from <= k < t.len() && (#[trigger] t[k]) is Job ==> exists|m: int| k < m < t.len() && #[trigger] t[m] == Event::PoolJoin
+}
+pub proof fn lemma_join_last(t: Seq<Event>, from: int)
+    requires t.len() > 0, t.last() == Event::PoolJoin,
+    ensures joined_after_jobs(t, from),
+{
+    assert forall|k: int| from <= k < t.len() && (#[trigger] t[k]) is Job implies exists|m: int| k < m < t.len() && #[trigger] t[m] == Event::PoolJoin by {
+        assert(k < t.len() - 1 && t[t.len() - 1] == Event::PoolJoin);
+    }
+}
